@@ -14,9 +14,13 @@ Model: `Model/Monitor.lean` (comparison operators, "Notify resets the counter" a
 look-ahead are regenerated from the AST of /repo).  Histories are arbitrary lists of
 {message received, pong received, tick at time t} events with arbitrary times.
 
-Reading of "more than the configured number": with `maxRetries = n` the monitor sends at most `n` pings in a row;
-the connection is closed at the `(n+1)`-th consecutive idle firing, i.e. after `n` pings went unanswered and one
-more full idle interval passed (that is what `v > maxRetries` in `OnInactive` implements).
+Reading of "more than the configured number": with `maxRetries = n` the monitor makes at most `n` ping attempts in a
+row; the connection is closed at the `(n+1)`-th consecutive idle firing, i.e. after `n` ping attempts went unanswered
+(that is what `v > maxRetries` in `OnInactive` implements).  A *firing* is a housekeeping tick later than
+`lastActivity + period`; `OnInactive` does not touch `lastActivity`, so once the period has elapsed EVERY further tick
+is a firing: consecutive pings are spaced by the housekeeping interval, not by the period, and a ping whose send fails
+counts like one that was sent.  Nothing here (and nothing in the property) says how long a ping is given to be
+answered; see observation O4 in `Findings/C18.lean` and docs/notes/C18.md.
 
 The datagram server's per-datagram expiry check uses `now + look-ahead` (10 ms): see `datagram_close_bound`
 (partial) and `Findings/C18.lean` (witness: a peer can be closed although it was silent for less than a period).
@@ -49,30 +53,28 @@ theorem run_closed_mono (cfg : Cfg) (s : St) (evs : List Ev) (h : (run cfg s evs
   | true => rw [run_closed cfg s evs hc] at h; simp [hc] at h
 
 /-- While the connection is open, `last` is the time of the latest message and — with keep-alive — the failure
-    counter is the number of consecutive idle firings since that message (histories without server look-ups). -/
+    counter is the number of consecutive idle firings since that message (all histories, server look-ups included). -/
 theorem run_track (cfg : Cfg) (hp : cfg.period ≠ 0) (evs : List Ev) : ∀ (s : St),
-    noDatagram evs = true → (run cfg s evs).1.closed = false →
+    (run cfg s evs).1.closed = false →
       (run cfg s evs).1.last = lastMsg s.last evs ∧
       (cfg.maxRetries.isSome = true → (run cfg s evs).1.fails = streak cfg.period s.last s.fails evs) := by
   induction evs with
-  | nil => intro s _ _; simp [run, lastMsg, streak]
+  | nil => intro s _; simp [run, lastMsg, streak]
   | cons e es ih =>
-    intro s hnd hopen
+    intro s hopen
     have hs : s.closed = false := run_closed_mono cfg s (e :: es) hopen
     simp only [run] at hopen ⊢
     have hopen1 : (step cfg s e).1.closed = false := run_closed_mono cfg _ es hopen
     cases e with
     | recv t =>
-      have hnd' : noDatagram es = true := by simpa [noDatagram] using hnd
-      have := ih (step cfg s (.recv t)).1 hnd' hopen
+      have := ih (step cfg s (.recv t)).1 hopen
       simp only [step, hs, Bool.false_eq_true, if_false, notify] at this ⊢
       simp only [lastMsg, streak]
       refine ⟨this.1, fun hk => ?_⟩
       have h2 := this.2 hk
       simpa [hk, notifyResetsFails] using h2
     | pong g t =>
-      have hnd' : noDatagram es = true := by simpa [noDatagram] using hnd
-      have := ih (step cfg s (.pong g t)).1 hnd' hopen
+      have := ih (step cfg s (.pong g t)).1 hopen
       simp only [lastMsg, streak]
       have hl : (step cfg s (.pong g t)).1.last = t := by
         simp only [step, hs, Bool.false_eq_true, if_false, notify]; split <;> rfl
@@ -85,8 +87,7 @@ theorem run_track (cfg : Cfg) (hp : cfg.period ≠ 0) (evs : List Ev) : ∀ (s :
       refine ⟨by rw [this.1, hl], fun hk => ?_⟩
       rw [this.2 hk, hl, hf hk]
     | tick t =>
-      have hnd' : noDatagram es = true := by simpa [noDatagram] using hnd
-      have := ih (step cfg s (.tick t)).1 hnd' hopen
+      have := ih (step cfg s (.tick t)).1 hopen
       simp only [lastMsg, streak]
       simp only [step, hs, Bool.false_eq_true, if_false, check, hp, fireStrict, if_true] at this hopen1 ⊢
       by_cases hf : t > s.last + cfg.period
@@ -102,8 +103,7 @@ theorem run_track (cfg : Cfg) (hp : cfg.period ≠ 0) (evs : List Ev) : ∀ (s :
       · simp only [hf, if_false] at this ⊢
         exact this
     | tickFail t =>
-      have hnd' : noDatagram es = true := by simpa [noDatagram] using hnd
-      have := ih (step cfg s (.tickFail t)).1 hnd' hopen
+      have := ih (step cfg s (.tickFail t)).1 hopen
       simp only [lastMsg, streak]
       simp only [step, hs, Bool.false_eq_true, if_false, check, hp, fireStrict, if_true] at this hopen1 ⊢
       by_cases hf : t > s.last + cfg.period
@@ -118,35 +118,57 @@ theorem run_track (cfg : Cfg) (hp : cfg.period ≠ 0) (evs : List Ev) : ∀ (s :
             exact ⟨this.1, fun _ => this.2 (by simp)⟩
       · simp only [hf, if_false] at this ⊢
         exact this
-    | datagram t => simp [noDatagram] at hnd
+    | datagram t =>
+      have := ih (step cfg s (.datagram t)).1 hopen
+      simp only [lastMsg, streak]
+      have hstep : (step cfg s (.datagram t)).1 = notify cfg (check cfg s (t + serverLookaheadNs)).1 t := by
+        simp only [step, hs, Bool.false_eq_true, if_false] at hopen1 ⊢
+        split
+        · rename_i hcl; simp [hcl] at hopen1
+        · rfl
+      have hl : (step cfg s (.datagram t)).1.last = t := by rw [hstep]; rfl
+      have hf : cfg.maxRetries.isSome = true → (step cfg s (.datagram t)).1.fails = 0 := by
+        intro hk; rw [hstep]; simp [notify, hk, notifyResetsFails]
+      refine ⟨by rw [this.1, hl], fun hk => ?_⟩
+      rw [this.2 hk, hl, hf hk]
+
+/-- a housekeeping tick; `fail` = nothing can be sent at that moment -/
+def tickEv (fail : Bool) (t : Int) : Ev := if fail then .tickFail t else .tick t
+
+theorem step_tickEv (cfg : Cfg) (s : St) (fail : Bool) (t : Int) (hs : s.closed = false) :
+    step cfg s (tickEv fail t) = check cfg s t (!fail) := by
+  cases fail <;> simp [tickEv, step, hs]
 
 /-- **closed_only_if_silent_for_period** (plain inactivity monitor): if the tick at time `t` closes the connection,
-    then more than a full period has passed since the latest message from the peer. -/
-theorem closed_only_if_silent_for_period (cfg : Cfg) (t0 : Int) (pre : List Ev) (t : Int)
-    (hm : cfg.maxRetries = none) (hnd : noDatagram pre = true)
+    then more than a full period has passed since the latest message from the peer (every earlier history, with or
+    without server look-ups; either kind of tick). -/
+theorem closed_only_if_silent_for_period (cfg : Cfg) (t0 : Int) (pre : List Ev) (t : Int) (fail : Bool)
+    (hm : cfg.maxRetries = none)
     (hopen : (run cfg (init t0) pre).1.closed = false)
-    (hclose : Out.close ∈ (step cfg (run cfg (init t0) pre).1 (.tick t)).2) :
+    (hclose : Out.close ∈ (step cfg (run cfg (init t0) pre).1 (tickEv fail t)).2) :
     cfg.period ≠ 0 ∧ t > lastMsg t0 pre + cfg.period := by
+  rw [step_tickEv _ _ _ _ hopen] at hclose
   have hp : cfg.period ≠ 0 := by
     intro h0
-    simp [step, hopen, check, h0] at hclose
-  have htr : (run cfg (init t0) pre).1.last = lastMsg t0 pre := (run_track cfg hp pre (init t0) hnd hopen).1
+    simp [check, h0] at hclose
+  have htr : (run cfg (init t0) pre).1.last = lastMsg t0 pre := (run_track cfg hp pre (init t0) hopen).1
   refine ⟨hp, ?_⟩
-  simp only [step, hopen, Bool.false_eq_true, if_false, check, hp, fireStrict, if_true] at hclose
+  simp only [check, hp, fireStrict, if_true, if_false] at hclose
   by_cases hf : t > (run cfg (init t0) pre).1.last + cfg.period
   · rw [htr] at hf; exact hf
   · simp [hf] at hclose
 
 /-- **closed_at_first_tick_after_period**: an open, plainly monitored connection is closed by the first tick that
     comes more than a period after the latest message. -/
-theorem closed_at_first_tick_after_period (cfg : Cfg) (t0 : Int) (pre : List Ev) (t : Int)
-    (hm : cfg.maxRetries = none) (hp : cfg.period ≠ 0) (hnd : noDatagram pre = true)
+theorem closed_at_first_tick_after_period (cfg : Cfg) (t0 : Int) (pre : List Ev) (t : Int) (fail : Bool)
+    (hm : cfg.maxRetries = none) (hp : cfg.period ≠ 0)
     (hopen : (run cfg (init t0) pre).1.closed = false)
     (hidle : t > lastMsg t0 pre + cfg.period) :
-    step cfg (run cfg (init t0) pre).1 (.tick t) = ({ (run cfg (init t0) pre).1 with closed := true }, [.close]) := by
-  have htr : (run cfg (init t0) pre).1.last = lastMsg t0 pre := (run_track cfg hp pre (init t0) hnd hopen).1
+    step cfg (run cfg (init t0) pre).1 (tickEv fail t) = ({ (run cfg (init t0) pre).1 with closed := true }, [.close]) := by
+  have htr : (run cfg (init t0) pre).1.last = lastMsg t0 pre := (run_track cfg hp pre (init t0) hopen).1
   have hf : t > (run cfg (init t0) pre).1.last + cfg.period := by rw [htr]; exact hidle
-  simp [step, hopen, check, hp, fireStrict, hf, hm]
+  rw [step_tickEv _ _ _ _ hopen]
+  simp [check, hp, fireStrict, hf, hm]
 
 /-- A tick inside the period does nothing at all (no ping, no close). -/
 theorem tick_within_period_noop (cfg : Cfg) (s : St) (t : Int) (h : ¬ t > s.last + cfg.period) :
@@ -156,37 +178,49 @@ theorem tick_within_period_noop (cfg : Cfg) (s : St) (t : Int) (h : ¬ t > s.las
   · have hc' : s.closed = false := by simpa using hc
     simp [step, hc', check, fireStrict, h]
 
-/-- **keepalive_close_needs_unanswered_run**: with keep-alive (`maxRetries = n`), the tick that closes the connection
-    is an idle firing that was preceded by at least `n` consecutive idle firings since the latest message from the
-    peer — each of which sent a ping that nobody answered (an answer is a message and would have reset the streak). -/
-theorem keepalive_close_needs_unanswered_run (cfg : Cfg) (n : Nat) (t0 : Int) (pre : List Ev) (t : Int)
-    (hm : cfg.maxRetries = some n) (hnd : noDatagram pre = true)
+/-- **keepalive_close_needs_unanswered_run**: with keep-alive (`maxRetries = n`), the tick (of either kind) that
+    closes the connection is an idle firing that was preceded by at least `n` consecutive idle firings since the latest
+    message from the peer.  Each of those made one ping attempt (`firing_attempts_one_ping`: a ping was sent, or its
+    send failed) and none was answered — an answer is a message and would have reset the streak.  Nothing is said
+    about the time between the firings: see O4. -/
+theorem keepalive_close_needs_unanswered_run (cfg : Cfg) (n : Nat) (t0 : Int) (pre : List Ev) (t : Int) (fail : Bool)
+    (hm : cfg.maxRetries = some n)
     (hopen : (run cfg (init t0) pre).1.closed = false)
-    (hclose : Out.close ∈ (step cfg (run cfg (init t0) pre).1 (.tick t)).2) :
+    (hclose : Out.close ∈ (step cfg (run cfg (init t0) pre).1 (tickEv fail t)).2) :
     cfg.period ≠ 0 ∧ t > lastMsg t0 pre + cfg.period ∧ streak cfg.period t0 0 pre ≥ n := by
+  rw [step_tickEv _ _ _ _ hopen] at hclose
   have hp : cfg.period ≠ 0 := by
     intro h0
-    simp [step, hopen, check, h0] at hclose
-  have htr0 := run_track cfg hp pre (init t0) hnd hopen
+    simp [check, h0] at hclose
+  have htr0 := run_track cfg hp pre (init t0) hopen
   have htr : (run cfg (init t0) pre).1.last = lastMsg t0 pre := htr0.1
   have hfails : (run cfg (init t0) pre).1.fails = streak cfg.period t0 0 pre := htr0.2 (by simp [hm])
   refine ⟨hp, ?_⟩
-  simp only [step, hopen, Bool.false_eq_true, if_false, check, hp, fireStrict, if_true] at hclose
+  simp only [check, hp, fireStrict, if_true, if_false] at hclose
   by_cases hf : t > (run cfg (init t0) pre).1.last + cfg.period
   · simp only [hf, if_true, hm, onInactive, closeWhenGreater] at hclose
     by_cases hv : (run cfg (init t0) pre).1.fails + 1 > n
     · refine ⟨by rw [htr] at hf; exact hf, ?_⟩
       rw [← hfails]; omega
-    · simp only [hv, if_false] at hclose
-      simp only [List.mem_append, List.mem_singleton] at hclose
-      rcases hclose with h | h
-      · split at h <;> simp at h
-      · cases h
+    · exfalso
+      cases fail <;>
+        (simp only [hv, if_false, Bool.not_false, Bool.not_true, if_true, Bool.false_eq_true] at hclose
+         simp only [List.mem_append, List.mem_singleton] at hclose
+         rcases hclose with h | h
+         · split at h <;> simp at h
+         · cases h)
   · simp [hf] at hclose
 
 /-- Each idle firing below the limit sends exactly one new ping, after cancelling the superseded one. -/
 theorem firing_sends_one_ping (n : Nat) (s : St) (h : ¬ s.fails + 1 > n) :
     (onInactive n s).2 = (match s.cancelSet with | some g => [Out.cancelPing g] | none => []) ++ [Out.ping (s.gen + 1)] := by
+  unfold onInactive
+  simp only [closeWhenGreater, h, if_true, if_false]
+  rfl
+
+/-- the same when the send fails: one attempt (`pingFailed`), the generation still advances, nothing is left to cancel -/
+theorem firing_attempts_one_ping (n : Nat) (s : St) (h : ¬ s.fails + 1 > n) :
+    (onInactive n s false).2 = (match s.cancelSet with | some g => [Out.cancelPing g] | none => []) ++ [Out.pingFailed (s.gen + 1)] := by
   unfold onInactive
   simp only [closeWhenGreater, h, if_true, if_false]
   rfl
@@ -203,7 +237,10 @@ theorem answered_resets (cfg : Cfg) (n : Nat) (s : St) (hm : cfg.maxRetries = so
     · rfl
 
 /-- **late_pong_not_credited**: the answer to a ping that has been superseded (its handler was cancelled when the next
-    ping was sent) is never passed to the pong callback of the newer ping: it is just a received message. -/
+    ping was sent) never reaches the pong callback of the newer ping: all it does is what every received message does
+    (`notify`: it refreshes `lastActivity` and — since fix F14 — resets the counter, because it proves the peer alive;
+    the property's two clauses "any received message resets the count" and "a late answer is not credited to a later
+    ping" meet here: the reset is that of a received message, the generation token keeps the callback out of it). -/
 theorem late_pong_not_credited (cfg : Cfg) (s : St) (g : Nat) (t : Int) (hs : s.closed = false)
     (hg : s.pending ≠ some g) : step cfg s (.pong g t) = (notify cfg s t, []) := by
   have : (notify cfg s t).pending ≠ some g := by simpa [notify] using hg
@@ -249,11 +286,13 @@ open CoapVerif.Props.C18
 #print axioms step_closed_mono
 #print axioms run_closed_mono
 #print axioms run_track
+#print axioms step_tickEv
 #print axioms closed_only_if_silent_for_period
 #print axioms closed_at_first_tick_after_period
 #print axioms tick_within_period_noop
 #print axioms keepalive_close_needs_unanswered_run
 #print axioms firing_sends_one_ping
+#print axioms firing_attempts_one_ping
 #print axioms answered_resets
 #print axioms late_pong_not_credited
 #print axioms pending_is_newest
